@@ -1961,4 +1961,125 @@ theorem wake_finish_K (K i : Nat) (results : List (Nat × Val)) (pre post : List
     · intro q hq
       exact hP.ids q (by rcases List.mem_append.mp hq with h | h <;> simp [h])
 
+/-! ## Part 8: convergence -/
+
+theorem sum_missing_zero {ws : List Watcher} (h : ∀ w ∈ ws, w.pids.length = w.np.toNat) : (ws.map missing).sum = 0 := by
+  induction ws with
+  | nil => rfl
+  | cons w r ih =>
+    simp only [List.map_cons, List.sum_cons, ih (fun x hx => h x (by simp [hx])), missing, h w (by simp)]
+    omega
+
+theorem Acct.all_full {s : State} (h : Acct [] [] s) : ∀ w ∈ s.ws, w.pids.length = w.np.toNat :=
+  fun w hw => h.full w hw (by simp) (fun p hp => by cases hp)
+
+/-- **any timer firing while the check is parked**: the earliest timer belongs to one of the parked loops; either its
+    watcher gets one more worker and the loop parks again, or the loop ends — and with the last loop the check.  One
+    firing less remains. -/
+theorem wake_K (K i : Nat) (results : List (Nat × Val)) (P : List PK) (s : State)
+    (hP : ParkedK K i results P s) (hd : DatK s) (hA : Acct [] P s) (hne : P ≠ []) :
+    ∃ results' P', DatK (step s .wake) ∧ Acct [] P' (step s .wake) ∧ toGo P' (step s .wake) + 1 = toGo P s ∧
+      Grow s.ws (step s .wake).ws ∧ (P' ≠ [] → ParkedK K i results' P' (step s .wake)) ∧ (P' = [] → IdleK (step s .wake)) := by
+  have hsne : s.sleepers ≠ [] := by
+    intro h
+    have := hP.sleepers
+    rw [h] at this
+    have := this.symm.eq_nil
+    exact hne (List.map_eq_nil_iff.mp this)
+  obtain ⟨sl, he⟩ := earliest_some_of_ne hsne
+  have hmem : sl ∈ P.map PK.timer := hP.sleepers.mem_iff.mp (earliest_memK he)
+  obtain ⟨p, hp, rfl⟩ := List.mem_map.mp hmem
+  obtain ⟨pre, post, rfl⟩ := List.append_of_mem hp
+  cases hr : p.rem with
+  | succ r =>
+    obtain ⟨p', h1, h2, h3, h4, h5⟩ := wake_spawn_K K i results pre post p r s hP hd hA he hr
+    exact ⟨results, pre ++ p' :: post, h2, h3, h4, h5, fun _ => h1, fun h => by simp at h⟩
+  | zero =>
+    obtain ⟨h1, h2, h3, h4, h5⟩ := wake_finish_K K i results pre post p s hP hd hA he hr
+    refine ⟨results ++ [(p.slot, Val.unit)], pre ++ post, h1, h3, ?_, by rw [h2]; exact Grow.refl _, h4, h5⟩
+    unfold toGo
+    rw [h2]
+    simp only [List.length_append, List.length_cons]
+    omega
+
+/-- the parked check with `n + 1` firings to go needs exactly `n + 1` timer firings -/
+theorem wakes_converge_K (K i : Nat) : ∀ (n : Nat) (results : List (Nat × Val)) (P : List PK) (s : State),
+    ParkedK K i results P s → DatK s → Acct [] P s → P ≠ [] → toGo P s = n + 1 →
+    IdleK (run s (List.replicate (n + 1) .wake)) ∧ DatK (run s (List.replicate (n + 1) .wake)) ∧
+    (∀ w ∈ (run s (List.replicate (n + 1) .wake)).ws, w.pids.length = w.np.toNat) ∧
+    Grow s.ws (run s (List.replicate (n + 1) .wake)).ws := by
+  intro n
+  induction n with
+  | zero =>
+    intro results P s hP hd hA hne hgo
+    obtain ⟨results', P', h1, h2, h3, h4, _, h6⟩ := wake_K K i results P s hP hd hA hne
+    have hP' : P' = [] := by
+      unfold toGo at h3 hgo
+      have : P'.length = 0 := by omega
+      exact List.length_eq_zero_iff.mp this
+    subst hP'
+    simp only [List.replicate_succ, List.replicate_zero]
+    show IdleK (step s .wake) ∧ _
+    exact ⟨h6 rfl, h1, h2.all_full, h4⟩
+  | succ n ih =>
+    intro results P s hP hd hA hne hgo
+    obtain ⟨results', P', h1, h2, h3, h4, h5, _⟩ := wake_K K i results P s hP hd hA hne
+    have hP' : P' ≠ [] := by
+      intro h
+      subst h
+      have := sum_missing_zero h2.all_full
+      unfold toGo at h3 hgo
+      simp only [List.length_nil] at h3
+      omega
+    rw [List.replicate_succ, run_cons]
+    obtain ⟨g1, g2, g3, g4⟩ := ih results' P' (step s .wake) (h5 hP') h1 h2 hP' (by omega)
+    exact ⟨g1, g2, g3, h4.trans g4⟩
+
+/-- **convergence with several watchers**: from an idle state with any number (≥ 1) of registered active watchers,
+    each listing at most `numprocesses` running workers, in a still kernel, the check followed by exactly as many
+    timer firings as workers are missing altogether ends idle, every watcher at its `numprocesses` running workers,
+    the workers that were there kept (`Grow`) -/
+theorem check_converges_K (s : State) (hi : IdleK s) (hd : DatK s) (hle : ∀ w ∈ s.ws, w.pids.length ≤ w.np.toNat)
+    (hne : s.ws ≠ []) :
+    IdleK (run s (.check :: List.replicate (s.ws.map missing).sum .wake)) ∧
+    DatK (run s (.check :: List.replicate (s.ws.map missing).sum .wake)) ∧
+    (∀ w ∈ (run s (.check :: List.replicate (s.ws.map missing).sum .wake)).ws, w.pids.length = w.np.toNat) ∧
+    Grow s.ws (run s (.check :: List.replicate (s.ws.map missing).sum .wake)).ws := by
+  rw [run_cons]
+  by_cases hmiss : ∃ w ∈ s.ws, w.pids.length < w.np.toNat
+  · obtain ⟨results, P, hP, hd', hA, hPne, hgo, hgr⟩ := check_parks_K s hi hd hle hmiss
+    have hpos : 0 < (s.ws.map missing).sum := by
+      rw [← hgo]
+      unfold toGo
+      have := List.length_pos_iff.mpr hPne
+      omega
+    obtain ⟨n, hn⟩ : ∃ n, (s.ws.map missing).sum = n + 1 := ⟨_, (Nat.succ_pred_eq_of_pos hpos).symm⟩
+    rw [hn]
+    obtain ⟨g1, g2, g3, g4⟩ := wakes_converge_K s.ws.length s.nextId n results P _ hP hd' hA hPne (by rw [hgo, hn])
+    exact ⟨g1, g2, g3, hgr.trans g4⟩
+  · have hfull : ∀ w ∈ s.ws, w.pids.length = w.np.toNat := by
+      intro w hw
+      have := hle w hw
+      by_cases h : w.pids.length < w.np.toNat
+      · exact absurd ⟨w, hw, h⟩ hmiss
+      · omega
+    rw [sum_missing_zero hfull]
+    simp only [List.replicate_zero]
+    obtain ⟨h1, h2, h3, _⟩ := check_idle_K s hi hd hfull hne
+    exact ⟨h1, h2, by simpa [run, h3] using hfull, by simp only [run, List.foldl_nil]; rw [h3]; exact Grow.refl _⟩
+
+/-- … and there it stays -/
+theorem checks_stay_K : ∀ (n : Nat) (s : State), IdleK s → DatK s → (∀ w ∈ s.ws, w.pids.length = w.np.toNat) → s.ws ≠ [] →
+    IdleK (run s (List.replicate n .check)) ∧ DatK (run s (List.replicate n .check)) ∧
+    (run s (List.replicate n .check)).ws = s.ws ∧ (run s (List.replicate n .check)).log = s.log := by
+  intro n
+  induction n with
+  | zero => intro s hi hd _ _; exact ⟨hi, hd, rfl, rfl⟩
+  | succ n ih =>
+    intro s hi hd hfull hne
+    obtain ⟨h1, h2, h3, h4⟩ := check_idle_K s hi hd hfull hne
+    rw [List.replicate_succ, run_cons]
+    obtain ⟨g1, g2, g3, g4⟩ := ih _ h1 h2 (by rw [h3]; exact hfull) (by rw [h3]; exact hne)
+    exact ⟨g1, g2, g3.trans h3, g4.trans h4⟩
+
 end Circus.Core
